@@ -31,7 +31,7 @@ const char *g_probe_name[MAXPROBE];
 static int nprobe;
 
 static const world_t *worlds[] = {
-    &world_lists, &world_trees, &world_heap, &world_map, &world_hash, &world_vector, &world_string, &world_array, &world_mem, &world_memc, &world_sort,
+    &world_lists, &world_trees, &world_heap, &world_map, &world_hash, &world_vector, &world_string, &world_array, &world_mem, &world_memc, &world_sort, &world_par,
 };
 #define NWORLDS (sizeof(worlds) / sizeof(worlds[0]))
 
@@ -241,8 +241,9 @@ static int rstreak;
 static int rsticky;
 uint64_t g_rand_calls;
 uint64_t g_work, g_work_at_try;
+void (*g_preempt_hook)(void);   /* world "par": every basic block of library code is a possible preemption point */
 void __sanitizer_cov_trace_pc(void);
-void __sanitizer_cov_trace_pc(void) { if (g_inlib) g_work++; }
+void __sanitizer_cov_trace_pc(void) { if (g_inlib) { g_work++; if (g_preempt_hook) g_preempt_hook(); } }
 uint64_t g_gen_index;       /* index of the run whose plan is being generated (worlds may use it to walk a domain systematically) */
 
 void simrand_reset(uint64_t seed, int kind)
@@ -253,8 +254,10 @@ void simrand_reset(uint64_t seed, int kind)
     g_rand_calls = 0;
 }
 
+int (*g_rand_hook)(void);       /* world "par": every simulated thread has a rand() stream of its own */
 int __wrap_rand(void)
 {
+    if (g_rand_hook) return g_rand_hook();
     static const int sticky_vals[] = { 0, RAND_MAX, 720719, 1, 2, 3, RAND_MAX - 1 };
     g_rand_calls++;
     if (rkind == RS_STICKY) {
@@ -562,6 +565,7 @@ static void run_plan(const world_t *w, const plan_t *p, long long index, int tra
     }
     g_inlib = 0; g_trap_armed = 0;
     g_atomic_hook = NULL; g_yield_hook = NULL; g_sched_point = NULL; g_free_hook = NULL; g_fiber_escape = NULL; g_abort_in_fiber = NULL;
+    g_preempt_hook = NULL; g_rand_hook = NULL;
     simheap_fail_prob(0);
     simheap_fail_global(NULL, 0, 0);
     simheap_end_run();
